@@ -52,6 +52,14 @@ def run(pid: str, tier: str) -> int:
         # the 'unsorted' seed exists for the rejected-sort case of C06; C01's quick tier skips it
         plans = [([s for s in seeds if s != "unsorted"], plan, caps) for seeds, plan, caps in plans]
     r = common.Run(pid, "model_checking", tier)
+    known_keys = {f["key"] for f in common.load_findings() if f["property"] in ("C01", "C06") and f["status"] == "known"}
+    stopped_early = False
+    # safety net: a defect can make every transition slower and slower (state kept alive across worlds); the quick
+    # tier gives up after 15 minutes, the thorough tier after 3 hours, and reports what it has - never as exhaustive
+    import time
+
+    deadline = time.time() + (900 if tier == "quick" else 3 * 3600)
+    timed_out = False
     total_states = total_trans = total_raise = 0
     per_op: dict[str, list[int]] = {}
     plans_done = []
@@ -61,7 +69,7 @@ def run(pid: str, tier: str) -> int:
         def lvl(depth, res, nfront, plan=plan):
             common.eprint(f"  [{pid}] plan={['+'.join(g) if g != ALL else 'ALL' for g in plan]} depth={depth} states={res.states} transitions={res.transitions} frontier={nfront}")
 
-        res = bfs(seeds, plan, caps, sample_rng=r.rng, on_level=lvl)
+        res = bfs(seeds, plan, caps, sample_rng=r.rng, on_level=lvl, is_known=lambda k: k in known_keys, deadline=deadline)
         total_states += res.states
         total_trans += res.transitions
         total_raise += res.raising
@@ -73,7 +81,9 @@ def run(pid: str, tier: str) -> int:
         plans_done.append({"seeds": seeds, "groups_per_depth": [list(g) for g in plan], "caps": caps,
                            "states": res.states, "transitions": res.transitions, "raising": res.raising,
                            "depth_completed": res.max_depth, "pruned_violating_states": res.pruned,
-                           "frontier_exhausted": res.frontier_exhausted})
+                           "frontier_exhausted": res.frontier_exhausted, "stopped_after_violation": res.stopped_after_violation})
+        stopped_early = stopped_early or res.stopped_after_violation or res.timed_out
+        timed_out = timed_out or res.timed_out
         found = res.c01 if which == "c01" else res.c06
         counts = res.c01_count if which == "c01" else res.c06_count
         for key, (hist, out, detail) in found.items():
@@ -97,6 +107,8 @@ def run(pid: str, tier: str) -> int:
         for s in res.sample_histories:
             r.sample(s)
         nontrivial += res.raising if which == "c06" else res.transitions - res.raising
+        if stopped_early:
+            break
     r.coverage.update({
         "states": total_states,
         "transitions": total_trans,
@@ -107,7 +119,7 @@ def run(pid: str, tier: str) -> int:
         "distinct_nontrivial": len(raising_sigs) if which == "c06" else total_states,
         "rule": ("C06: a case is a raising transition; distinct = distinct (call-site class, exception type)" if which == "c06"
                  else "C01: a case is a transition; distinct = distinct canonical successor states"),
-        "exhaustive": True,
+        "exhaustive": not stopped_early,
         "bound": plans_done,
         "per_op_returned_raised": {k: v for k, v in sorted(per_op.items())},
     })
@@ -119,7 +131,12 @@ def run(pid: str, tier: str) -> int:
     ]
     if not r.samples:
         r.sample({"history": [seeds[0], []]})
-    return r.finish()
+    r.coverage["timed_out"] = timed_out
+    rc = r.finish()
+    if timed_out and rc == 0:
+        # nothing found, but the exploration was not completed: neither a pass nor a violation
+        raise common.HarnessError(f"{pid}: exploration exceeded its wall-clock budget before completing the stated bound")
+    return rc
 
 
 def replay(obj):
